@@ -182,7 +182,7 @@ func runCheck(args []string, repo, specs, tier string, jobs int, verbose bool) i
 		}
 	}
 
-	results := Discharge(all, work, timeout, thorough, jobs)
+	results := Discharge(all, work, timeout, thorough, jobs, func(o *Obligation) bool { return known.match(prop, o.Fn+" :: "+o.Name) != nil })
 
 	// bounded stand-ins (never counted as proved)
 	var boundedReports []map[string]interface{}
